@@ -362,6 +362,11 @@ func (w *codecWalker) canon(e ast.Expr) string {
 		if x.Op == token.AND {
 			return w.canon(x.X)
 		}
+		if x.Op == token.NOT {
+			if in := w.canon(x.X); strings.HasPrefix(in, "!") {
+				return in[1:]
+			}
+		}
 		return x.Op.String() + w.canon(x.X)
 	case *ast.IndexExpr:
 		return w.canon(x.X) + "[]"
@@ -683,6 +688,9 @@ func (w *codecWalker) block(stmts []ast.Stmt) []cop {
 				}
 				continue
 			}
+			if w.boolFlagAssignment(x) {
+				continue
+			}
 			thenOps := w.block(x.Body.List)
 			var elseOps []cop
 			hasElse := x.Else != nil
@@ -697,6 +705,15 @@ func (w *codecWalker) block(stmts []ast.Stmt) []cop {
 			if len(thenOps) == 0 && !hasElse && endsInReturn(x.Body) {
 				if be, ok := ast.Unparen(x.Cond).(*ast.BinaryExpr); ok && be.Op == token.NEQ {
 					w.fn.Checks = append(w.fn.Checks, w.canon(be.X)+"=="+w.canon(be.Y), w.canon(be.Y)+"=="+w.canon(be.X))
+				}
+				// `a < b || a > b` is `a != b`
+				if be, ok := ast.Unparen(x.Cond).(*ast.BinaryExpr); ok && be.Op == token.LOR {
+					l, ok1 := ast.Unparen(be.X).(*ast.BinaryExpr)
+					r, ok2 := ast.Unparen(be.Y).(*ast.BinaryExpr)
+					if ok1 && ok2 && ((l.Op == token.LSS && r.Op == token.GTR) || (l.Op == token.GTR && r.Op == token.LSS)) &&
+						w.canon(l.X) == w.canon(r.X) && w.canon(l.Y) == w.canon(r.Y) {
+						w.fn.Checks = append(w.fn.Checks, w.canon(l.X)+"=="+w.canon(l.Y), w.canon(l.Y)+"=="+w.canon(l.X))
+					}
 				}
 			}
 			if len(thenOps) == 0 && !hasElse && returnsNonNilError(x.Body) {
@@ -718,6 +735,26 @@ func (w *codecWalker) block(stmts []ast.Stmt) []cop {
 				return ops
 			}
 			if len(thenOps) == 0 && len(elseOps) == 0 {
+				// writer: a local chosen under a condition on receiver fields (`d := F; if m.flag { d = T }`)
+				// stands for those fields when it is written later
+				if w.fn.Writer {
+					ast.Inspect(x, func(n ast.Node) bool {
+						as, ok := n.(*ast.AssignStmt)
+						if !ok || as.Tok != token.ASSIGN || len(as.Lhs) != 1 {
+							return true
+						}
+						if id, ok := as.Lhs[0].(*ast.Ident); ok {
+							if o := w.info.Uses[id]; o != nil {
+								if prev, has := w.locals[o]; has {
+									w.locals[o] = &ast.BinaryExpr{X: prev, Op: token.LOR, Y: x.Cond}
+								} else {
+									w.locals[o] = x.Cond
+								}
+							}
+						}
+						return true
+					})
+				}
 				continue
 			}
 			if eb, ok := x.Else.(*ast.BlockStmt); ok && len(elseOps) == 0 && returnsNonNilError(eb) {
@@ -738,7 +775,12 @@ func (w *codecWalker) block(stmts []ast.Stmt) []cop {
 			bvar := ""
 			if x.Cond != nil {
 				if be, ok := ast.Unparen(x.Cond).(*ast.BinaryExpr); ok {
-					bound = w.canon(be.Y)
+					if nb, plain := forTripCount(x, be); plain {
+						be = nb
+						bound = w.canon(be.Y)
+					} else {
+						bound = w.canon(be.Y) + forTripSuffix(x, be)
+					}
 					bvar = w.varKey(be.Y)
 					if bvar == "" {
 						bvar = "expr"
@@ -833,8 +875,9 @@ func (w *codecWalker) stmtOps(s ast.Stmt) []cop {
 			ops[0].Var = w.varKey(as.Lhs[0])
 		}
 	}
-	if as, ok := s.(*ast.AssignStmt); ok && w.fn.Writer && as.Tok == token.DEFINE && len(as.Rhs) == 1 {
-		// writer: a local computed from receiver fields stands for those fields when written later
+	if as, ok := s.(*ast.AssignStmt); ok && (w.fn.Writer || (len(ops) == 0 && len(as.Lhs) == 1)) && as.Tok == token.DEFINE && len(as.Rhs) == 1 {
+		// a local computed from receiver fields (without reading the stream) stands for those fields
+		// when used later: `n := len(m.X)`
 		if id, ok := as.Lhs[0].(*ast.Ident); ok {
 			if o := w.info.Defs[id]; o != nil {
 				w.locals[o] = as.Rhs[0]
@@ -919,4 +962,183 @@ func (w *codecWalker) withCond(ops []cop, cond ast.Expr) []cop {
 		}
 	}
 	return ops
+}
+
+// forTripCount rewrites the condition of a counted loop into the form `i < N` (N: how often the body
+// runs) for the spellings that run the same number of times: `i <= N-1` from 0, `i <= N` from 1,
+// and counting down `for r := N; r > 0 (r >= 1, r != 0); r--`. Other loops are returned unchanged
+// (forTripSuffix then marks what is not a plain count).
+func forTripCount(x *ast.ForStmt, be *ast.BinaryExpr) (*ast.BinaryExpr, bool) {
+	id, ok := ast.Unparen(be.X).(*ast.Ident)
+	if !ok {
+		return be, false
+	}
+	as, ok := x.Init.(*ast.AssignStmt)
+	if !ok || len(as.Lhs) != 1 || len(as.Rhs) != 1 {
+		return be, false
+	}
+	lhs, ok := as.Lhs[0].(*ast.Ident)
+	if !ok || lhs.Name != id.Name {
+		return be, false
+	}
+	isLit := func(e ast.Expr, v string) bool {
+		e = ast.Unparen(e)
+		if call, ok := e.(*ast.CallExpr); ok && len(call.Args) == 1 {
+			e = ast.Unparen(call.Args[0])
+		}
+		l, ok := e.(*ast.BasicLit)
+		return ok && l.Value == v
+	}
+	step := 0
+	switch p := x.Post.(type) {
+	case *ast.IncDecStmt:
+		if pid, ok := p.X.(*ast.Ident); ok && pid.Name == id.Name {
+			if p.Tok == token.INC {
+				step = 1
+			} else {
+				step = -1
+			}
+		}
+	case *ast.AssignStmt:
+		if len(p.Lhs) == 1 && len(p.Rhs) == 1 && isLit(p.Rhs[0], "1") {
+			if pid, ok := p.Lhs[0].(*ast.Ident); ok && pid.Name == id.Name {
+				if p.Tok == token.ADD_ASSIGN {
+					step = 1
+				}
+				if p.Tok == token.SUB_ASSIGN {
+					step = -1
+				}
+			}
+		}
+	}
+	switch {
+	case step == 1 && isLit(as.Rhs[0], "0") && be.Op == token.LEQ:
+		// i <= N-1
+		if sub, ok := ast.Unparen(be.Y).(*ast.BinaryExpr); ok && sub.Op == token.SUB && isLit(sub.Y, "1") {
+			return &ast.BinaryExpr{X: be.X, Op: token.LSS, Y: sub.X, OpPos: be.OpPos}, true
+		}
+	case step == 1 && isLit(as.Rhs[0], "1") && be.Op == token.LEQ:
+		return &ast.BinaryExpr{X: be.X, Op: token.LSS, Y: be.Y, OpPos: be.OpPos}, true
+	case step == -1:
+		if (be.Op == token.GTR && isLit(be.Y, "0")) || (be.Op == token.GEQ && isLit(be.Y, "1")) || (be.Op == token.NEQ && isLit(be.Y, "0")) {
+			return &ast.BinaryExpr{X: be.X, Op: token.LSS, Y: as.Rhs[0], OpPos: be.OpPos}, true
+		}
+	}
+	return be, false
+}
+
+// forTripSuffix: "" when `for i := init; i <op> bound; post` runs exactly `bound` times (i from 0 with
+// `<` or `!=`, or from 1 with `<=`, stepping by one); otherwise a marker that makes the loop's bound
+// differ from its counterpart's, so that a reader looping count-1 or count+1 times is reported.
+func forTripSuffix(x *ast.ForStmt, be *ast.BinaryExpr) string {
+	id, ok := ast.Unparen(be.X).(*ast.Ident)
+	if !ok {
+		return ""
+	}
+	as, ok := x.Init.(*ast.AssignStmt)
+	if !ok || len(as.Lhs) != 1 || len(as.Rhs) != 1 {
+		return ""
+	}
+	lhs, ok := as.Lhs[0].(*ast.Ident)
+	if !ok || lhs.Name != id.Name {
+		return ""
+	}
+	// initial value: literal, possibly converted
+	init := ast.Unparen(as.Rhs[0])
+	if call, ok := init.(*ast.CallExpr); ok && len(call.Args) == 1 {
+		init = ast.Unparen(call.Args[0])
+	}
+	lit, ok := init.(*ast.BasicLit)
+	if !ok || lit.Kind != token.INT {
+		return ""
+	}
+	// step
+	stepOK := false
+	switch p := x.Post.(type) {
+	case *ast.IncDecStmt:
+		if pid, ok := p.X.(*ast.Ident); ok && pid.Name == id.Name && p.Tok == token.INC {
+			stepOK = true
+		}
+	case *ast.AssignStmt:
+		if len(p.Lhs) == 1 && len(p.Rhs) == 1 && p.Tok == token.ADD_ASSIGN {
+			if pid, ok := p.Lhs[0].(*ast.Ident); ok && pid.Name == id.Name {
+				if l, ok := p.Rhs[0].(*ast.BasicLit); ok && l.Value == "1" {
+					stepOK = true
+				}
+			}
+		}
+	}
+	if !stepOK {
+		return "{step is not +1}"
+	}
+	switch {
+	case lit.Value == "0" && (be.Op == token.LSS || be.Op == token.NEQ):
+		return ""
+	case lit.Value == "1" && be.Op == token.LEQ:
+		return ""
+	}
+	return fmt.Sprintf("{counting from %s while %s}", lit.Value, be.Op)
+}
+
+// boolFlagAssignment recognises `if C { f = true } else { f = false }` (either polarity; the else may
+// be missing when f was declared with the other constant just before) for a local bool f and
+// records f as standing for C (or !C), so that a presence flag held in a local is read like the
+// condition it was computed from.
+func (w *codecWalker) boolFlagAssignment(x *ast.IfStmt) bool {
+	if x.Init != nil {
+		return false
+	}
+	one := func(b *ast.BlockStmt) (types.Object, bool, bool) {
+		if b == nil || len(b.List) != 1 {
+			return nil, false, false
+		}
+		as, ok := b.List[0].(*ast.AssignStmt)
+		if !ok || as.Tok != token.ASSIGN || len(as.Lhs) != 1 || len(as.Rhs) != 1 {
+			return nil, false, false
+		}
+		id, ok := as.Lhs[0].(*ast.Ident)
+		if !ok {
+			return nil, false, false
+		}
+		v, ok := ast.Unparen(as.Rhs[0]).(*ast.Ident)
+		if !ok || (v.Name != "true" && v.Name != "false") {
+			return nil, false, false
+		}
+		o := w.info.Uses[id]
+		if _, isVar := o.(*types.Var); !isVar || o.Parent() == nil || o.Pkg() == nil || o.Parent() == o.Pkg().Scope() {
+			return nil, false, false
+		}
+		return o, v.Name == "true", true
+	}
+	o, thenVal, ok := one(x.Body)
+	if !ok {
+		return false
+	}
+	if x.Else != nil {
+		eb, isBlock := x.Else.(*ast.BlockStmt)
+		if !isBlock {
+			return false
+		}
+		o2, elseVal, ok2 := one(eb)
+		if !ok2 || o2 != o || elseVal == thenVal {
+			return false
+		}
+	} else {
+		// the declaration must have given the other constant: `f := false` / `var f bool`
+		def, has := w.locals[o]
+		if has {
+			v, ok := ast.Unparen(def).(*ast.Ident)
+			if !ok || (v.Name == "true") == thenVal {
+				return false
+			}
+		} else if thenVal == false {
+			return false // `var f bool` is false already: `if C { f = false }` says nothing
+		}
+	}
+	var e ast.Expr = x.Cond
+	if !thenVal {
+		e = &ast.UnaryExpr{Op: token.NOT, X: &ast.ParenExpr{X: x.Cond}}
+	}
+	w.locals[o] = e
+	return true
 }
